@@ -43,6 +43,13 @@ Theorem C13_import_steps_pass_the_side_conditions : forall w l bs nh twice fs,
   Inv H inflate w -> pending l = [] ->
   forall a e b, p_import w nh twice fs bs = a ++ e :: b -> c13_ok_b H (run_events (w, l) a) e = true.
 Proof. exact (import_every_step_c13 H inflate). Qed.
+(* pack_all_loose (one pack, with or without fsync and per-pack clean): every step, the unlinks of the packed loose files included *)
+Theorem C13_pack_every_step : forall w l id objs fs clean,
+  Inv H inflate w -> pending l = [] ->
+  Forall (obj_ok inflate w) objs -> NoDup (map okey objs) -> (forall o, In o objs -> ~ In (okey o) (map rkey (db w))) ->
+  forall a e b, p_pack_one w id objs fs clean = a ++ e :: b ->
+    keeps_ref (fst (run_events (w, l) a)) (fst (run_events (w, l) (a ++ [e]))).
+Proof. exact (pack_one_every_step_keeps_ref H inflate H_inj). Qed.
 End C13.
 (* layout half: _get_pack_id_to_write_to, from any cached id <= n, returns the last pack when that is below the target and the next
    fresh id otherwise - never an earlier (full) pack; so writing to the chosen pack keeps "ids consecutive from 0 and every pack
@@ -61,3 +68,4 @@ Print Assumptions C13_monotone_history_keeps_referenced_bytes.
 Print Assumptions C13_add_to_pack_every_step.
 Print Assumptions C13_import_every_step.
 Print Assumptions C13_import_steps_pass_the_side_conditions.
+Print Assumptions C13_pack_every_step.
